@@ -54,7 +54,7 @@ pub fn get_course_room_kind_names(
                 .flat_map(|r| {
                     room_kinds
                         .iter()
-                        .filter(move |rk| rk.capacity == r)
+                        .filter(move |rk| rk.capacity == r && rk.quantity > 0)
                         .map(|rk| rk.name.as_str())
                 })
                 .collect::<Vec<&str>>()
